@@ -1114,23 +1114,23 @@ Qed.
 
 (* ---- the configured entries: Replace with "" as the empty value ---- *)
 Definition cfg_gs (q : request) : bytes -> bytes :=
-  C20_Model.get_subst V.Gen_C20.gen_c20_vocab (cfg_renv CFG_EMPTY q).
+  C20_Model.get_subst cfg_dispatch (cfg_renv CFG_EMPTY q).
 (* total form of cfg_expand (Replace never fails, C20) *)
 Definition cfg_val (q : request) (v : bytes) : bytes :=
   match cfg_expand q v with Ok o => o | Panic => [] end.
 
 Lemma cfg_expand_total q v : exists o, cfg_expand q v = Ok o.
-Proof. unfold cfg_expand, C20_Model.expand_env. apply C20_Proofs.expand_total. Qed.
+Proof. unfold cfg_expand. apply C20_Proofs.expand_total. Qed.
 
 Lemma cfg_expand_val q v : cfg_expand q v = Ok (cfg_val q v).
 Proof. unfold cfg_val. destruct (cfg_expand_total q v) as [o ->]. reflexivity. Qed.
 
 Lemma cfg_expand_render q v :
   exists t, C20_Model.template v = Ok t /\ cfg_expand q v = Ok (C20_Model.render (cfg_gs q) t).
-Proof. unfold cfg_expand, C20_Model.expand_env, cfg_gs. apply C20_Proofs.expand_render. Qed.
+Proof. unfold cfg_expand, cfg_gs. apply C20_Proofs.expand_render. Qed.
 
 Lemma cfg_expand_literal q v : C19_Model.has_brace v = false -> cfg_expand q v = Ok v.
-Proof. intros H. unfold cfg_expand, C20_Model.expand_env, C20_Model.expand. rewrite H. reflexivity. Qed.
+Proof. intros H. unfold cfg_expand, C20_Model.expand. rewrite H. reflexivity. Qed.
 
 Lemma cfg_entries_map q l :
   cfg_entries q l = Ok (map (fun kv => (fst kv, cfg_val q (snd kv))) l).
@@ -1298,6 +1298,36 @@ Qed.
 
 (* ---- which placeholders come out empty ---- *)
 Definition class_char (c : N) : bool := (c =? 62) || (c =? 60) || (c =? 126) || (c =? 63) || (c =? 36).
+(* the table: same labels as C20's (hence as the code's switch, C20_vocabulary_is_dispatch_table) *)
+Lemma assoc_override {A} (K : list bytes) (o : A) key : forall l,
+  C20_Model.assoc key (map (fun p => if C20_Model.mem (fst p) K then (fst p, o) else p) l)
+  = match C20_Model.assoc key l with
+    | Some h => Some (if C20_Model.mem key K then o else h)
+    | None => None
+    end.
+Proof.
+  induction l as [|[k' h'] l IH]; [reflexivity|].
+  cbn [map fst]. destruct (C20_Model.mem k' K) eqn:Ek; cbn [C20_Model.assoc];
+    destruct (beq key k') eqn:E; try exact IH; apply beq_eq in E; subst k'; rewrite Ek; reflexivity.
+Qed.
+
+Lemma cfg_dispatch_assoc key :
+  C20_Model.assoc key cfg_dispatch
+  = match C20_Model.assoc key C20_Model.dispatch with
+    | Some h => Some (if C20_Model.mem key TLS_DEP_KEYS then C20_Model.Oracle else h)
+    | None => None
+    end.
+Proof. unfold cfg_dispatch. apply assoc_override. Qed.
+
+Lemma cfg_dispatch_none key :
+  C20_Model.mem key V.Gen_C20.gen_c20_vocab = false -> C20_Model.assoc key cfg_dispatch = None.
+Proof.
+  intros Hm. rewrite cfg_dispatch_assoc.
+  destruct (C20_Model.assoc key C20_Model.dispatch) as [h|] eqn:E; [|reflexivity].
+  assert (C20_Model.mem key V.Gen_C20.gen_c20_vocab = true) by (apply C20_Proofs.vocabulary_is_dispatch; eauto).
+  congruence.
+Qed.
+
 Lemma vocab_no_class_char :
   forallb (fun k => match k with _ :: c :: _ => negb (class_char c) | _ => false end) V.Gen_C20.gen_c20_vocab = true.
 Proof. vm_compute. reflexivity. Qed.
@@ -1312,6 +1342,10 @@ Proof.
   unfold idx in Hi. cbn in Hi. injection Hi as ->. rewrite Hc in Hv. discriminate.
 Qed.
 
+Lemma class_key_not_dispatch key c :
+  idx key 1 = Ok c -> class_char c = true -> C20_Model.assoc key cfg_dispatch = None.
+Proof. intros Hi Hc. apply cfg_dispatch_none. eapply class_key_not_vocab; eauto. Qed.
+
 Lemma class_key_not_label key c :
   idx key 1 = Ok c -> class_char c = true -> C19_Model.prefixb C19_Model.lit_label_13 key = false.
 Proof.
@@ -1320,6 +1354,56 @@ Proof.
   destruct (C19_Model.prefixb C19_Model.lit_label_13 (a :: c :: rk)) eqn:P; [|reflexivity]. exfalso.
   cbn in P. apply andb_true_iff in P as [_ P]. apply andb_true_iff in P as [P _].
   apply N.eqb_eq in P. subst c. vm_compute in Hc. discriminate.
+Qed.
+
+(* C13's documented table and C20's computed values coincide: for every label that the table
+   the model runs on COMPUTES from the request components (Fn), the function's value in buildEnv's
+   request environment is the value C13's table lists — for every request and empty value *)
+Lemma cfg_fn_agrees empty q key f :
+  In (key, C20_Model.Fn f) cfg_dispatch ->
+  C20_Model.assoc key (cfg_defaults empty q) = Some (f (cfg_renv empty q)).
+Proof.
+  intros H. vm_compute in H.
+  repeat (destruct H as [H|H];
+          [first [discriminate H | injection H as <- <-; vm_compute; reflexivity]|]).
+  contradiction.
+Qed.
+
+(* every label is either computed (and then agrees with C13's table) or read from C13's table, or
+   is one C13 does not model ({when…}, {hostname}, {request}, {request_body}, *_escaped) *)
+Lemma cfg_oracle_labels :
+  map fst (filter (fun p => negb (C20_Model.is_fn (snd p))) cfg_dispatch)
+  = map bs ["{scheme}"; "{hostname}"; "{hostonly}"; "{path_escaped}"; "{rewrite_path_escaped}"; "{query_escaped}";
+            "{remote}"; "{port}"; "{uri}"; "{uri_escaped}"; "{rewrite_uri}"; "{rewrite_uri_escaped}";
+            "{when}"; "{when_iso_local}"; "{when_iso}"; "{when_unix}"; "{when_unix_ms}";
+            "{request}"; "{request_body}"; "{latency}"; "{latency_ms}"; "{tls_protocol}"; "{tls_cipher}";
+            "{server_port}"]%string.
+Proof. vm_compute. reflexivity. Qed.
+
+(* on plain HTTP the substitution function is C20's own (its table fixes the TLS-dependent labels to
+   the values they have without TLS), hence the expansion is C20_Model.expand_env itself *)
+Lemma cfg_gs_plain_http q key :
+  q_tls q = None ->
+  C20_Model.get_subst cfg_dispatch (cfg_renv CFG_EMPTY q) key
+  = C20_Model.get_subst C20_Model.dispatch (cfg_renv CFG_EMPTY q) key.
+Proof.
+  intros Ht. destruct (C20_Model.mem key TLS_DEP_KEYS) eqn:Em.
+  - unfold C20_Model.mem, TLS_DEP_KEYS in Em. cbn [map existsb] in Em.
+    repeat (apply orb_true_iff in Em as [Em|Em];
+            [apply beq_eq in Em; subst key; unfold C20_Model.get_subst, C20_Model.get_subst_chk; cbn; rewrite Ht; reflexivity|]).
+    discriminate Em.
+  - unfold C20_Model.get_subst, C20_Model.get_subst_chk.
+    rewrite cfg_dispatch_assoc, Em.
+    destruct (C20_Model.assoc key C20_Model.dispatch); reflexivity.
+Qed.
+
+Lemma cfg_expand_plain_http q v :
+  q_tls q = None -> cfg_expand q v = C20_Model.expand_env (cfg_renv CFG_EMPTY q) v.
+Proof.
+  intros Ht. unfold cfg_expand, C20_Model.expand_env.
+  destruct (C20_Proofs.template_total v) as (t & Et & _).
+  apply (C20_Proofs.expand_depends_on_format_keys _ _ v t Et).
+  intros k _. apply cfg_gs_plain_http. exact Ht.
 Qed.
 
 Definition absent_for (q : request) (key : bytes) : Prop :=
@@ -1339,21 +1423,21 @@ Proof.
   intros [(w & Hi & Hm & Hh) | [(w & Hi & Hm & Hh) | [(w & Hi & Hm & Hh) | [Hi | [Hin | [[Ht Hin] | (c & Hi & Hc & Hv & Hl)]]]]]].
   - unfold C20_Model.get_subst_chk. cbn [cfg_renv C20_Model.e_custom C20_Model.assoc C20_Model.e_reqh].
     rewrite Hi. cbn [rbind N.eqb Pos.eqb]. rewrite Hm. cbn [rbind]. rewrite Hh.
-    rewrite (class_key_not_vocab key 62 Hi eq_refl), (class_key_not_label key 62 Hi eq_refl). reflexivity.
+    rewrite (class_key_not_dispatch key 62 Hi eq_refl), (class_key_not_label key 62 Hi eq_refl). reflexivity.
   - unfold C20_Model.get_subst_chk. cbn [cfg_renv C20_Model.e_custom C20_Model.assoc C20_Model.e_resph C20_Model.e_cookies].
     rewrite Hi. cbn [rbind N.eqb Pos.eqb]. rewrite Hm. cbn [rbind]. rewrite Hh.
-    rewrite (class_key_not_vocab key 126 Hi eq_refl), (class_key_not_label key 126 Hi eq_refl). reflexivity.
+    rewrite (class_key_not_dispatch key 126 Hi eq_refl), (class_key_not_label key 126 Hi eq_refl). reflexivity.
   - unfold C20_Model.get_subst_chk. cbn [cfg_renv C20_Model.e_custom C20_Model.assoc C20_Model.e_resph C20_Model.e_query].
     rewrite Hi. cbn [rbind N.eqb Pos.eqb]. rewrite Hm. cbn [rbind]. rewrite Hh. reflexivity.
   - unfold C20_Model.get_subst_chk. cbn [cfg_renv C20_Model.e_custom C20_Model.assoc C20_Model.e_resph].
     rewrite Hi. cbn [rbind N.eqb Pos.eqb].
-    rewrite (class_key_not_vocab key 60 Hi eq_refl), (class_key_not_label key 60 Hi eq_refl). reflexivity.
+    rewrite (class_key_not_dispatch key 60 Hi eq_refl), (class_key_not_label key 60 Hi eq_refl). reflexivity.
   - cbn [REC_KEYS TLS_KEYS map app In] in Hin.
     repeat (destruct Hin as [<-|Hin]; [vm_compute; reflexivity|]). contradiction.
   - cbn [TLS_CONN_KEYS map In] in Hin.
     destruct Hin as [<-|[<-|[]]]; unfold C20_Model.get_subst_chk; cbn; rewrite Ht; reflexivity.
   - rewrite (C20_Proofs.unknown_placeholder_empty _ _ key c); try assumption; try reflexivity;
-      intros ->; discriminate Hc.
+      try (apply cfg_dispatch_none; assumption); intros ->; discriminate Hc.
 Qed.
 
 (* ---- the response head ---- *)
